@@ -95,7 +95,7 @@ SeedInRange == pc # "call" /\ cfg.hasRS => \A r1 \in 1..Len(outs) : outs[r1].see
 SeedsDistinctPerRow ==
   pc # "call" /\ cfg.hasRS /\ cfg.hasMeta /\ "index_in_batch" \notin DOMAIN cfg.kw =>
     \A a, b \in 1..Len(outs) : a # b => outs[a].seed # outs[b].seed
-\* NOT a theorem (negative control; finding F-C18-1): without meta the rows share one seed
+\* NOT a theorem (negative control; finding F26): without meta the rows share one seed
 SeedsDistinctPerRowWithoutMeta ==
   pc # "call" /\ cfg.hasRS /\ "index_in_batch" \notin DOMAIN cfg.kw =>
     \A a, b \in 1..Len(outs) : a # b => outs[a].seed # outs[b].seed
